@@ -3,13 +3,13 @@ import LunaVerif.Model.Usb2.SignalInEndpoint
 open LunaVerif LunaVerif.Proto LunaVerif.SignalIn
 
 /-- config line: `# width bigEndian endpointNumber`;
-input line: `endpoint is_in ready_for_response new_token ack tx_ready signal`;
+input line: `endpoint is_in ready_for_response new_token ack tx_ready signal clear_halt`;
 output line: `valid first last payload tx_pid_toggle status_read_complete`. -/
 def main : IO Unit :=
   runDriver (σ := Config × State)
     (fun cfg => (⟨fld cfg 0, n2b (fld cfg 1), fld cfg 2⟩, init))
     (fun (c, s) i =>
       let inp : In := ⟨fld i 0, n2b (fld i 1), n2b (fld i 2), n2b (fld i 3), n2b (fld i 4),
-                       n2b (fld i 5), fld i 6⟩
+                       n2b (fld i 5), fld i 6, n2b (fld i 7)⟩
       let (s', o) := step c s inp
       ((c, s'), [b2n o.valid, b2n o.first, b2n o.last, o.payload, b2n o.toggle, b2n o.complete]))
